@@ -157,6 +157,9 @@ def main():
             g = f.scale(np.array(F(a)) if isinstance(a, list) else float.fromhex(a))
         elif name == 'apply_matrix':
             g = f.apply_matrix(np.array([F(row) for row in op['arg']]))
+        elif name == 'apply_matrix_pc':
+            A = np.array(F(op['arg'])).reshape(tuple(op['ash']) + (int(op['rows']), f.coeffs.shape[-1] - (1 if isinstance(f, geometry.NurbsFunc) else 0)))
+            g = f.apply_matrix(A.tolist() if op['form'] == 'list' else A)
         elif name == 'rotate_2d':
             g = f.rotate_2d(float.fromhex(op['arg']))
         elif name == 'getitem':
